@@ -1075,7 +1075,9 @@ func (h *H) ccittCase(f pdf.FilterCCITTFax, data []byte, cols, rows int) {
 		h.fail(sig, fmt.Sprintf("CCITTFax %s: decode(encode(image)) != image (%d rows; got %d bytes for %d, err=%v)", label, rows, len(dec), len(data), err),
 			map[string]any{"filter": fmt.Sprintf("%#v", f), "cols": cols, "rows": rows, "data": common.Hex(data)})
 	}
-	if f.K == 0 && (cols <= 300 || cols <= 10000 && e.Rand.IntN(4) == 0) {
+	// the Group 4 model paints rows in quadratic time: fewer wide images there
+	if f.K == 0 && (cols <= 300 || cols <= 10000 && e.Rand.IntN(4) == 0) ||
+		f.K < 0 && (cols <= 300 || cols <= 3000 && e.Rand.IntN(12) == 0 || cols <= 10000 && e.Rand.IntN(40) == 0) {
 		h.g3ModelLines(f, data, enc, dec, err, cols, class)
 	}
 	e.Count(true, label+common.Hex(data), fmt.Sprintf("%s:%s", class, map[bool]string{true: "ok", false: "fail"}[ok]))
@@ -1088,6 +1090,10 @@ func g3Spec(f pdf.FilterCCITTFax, cols int) string {
 	maxRows := geoMax
 	if f.Rows > 0 && f.Rows < geoMax {
 		maxRows = f.Rows
+	}
+	if f.K < 0 {
+		// Group 4: EndOfLine plays no part
+		return fmt.Sprintf("g4:%d:%s:%s:%s:%d", cols, b01(f.EncodedByteAlign), b01(f.BlackIs1), b01(f.IgnoreEndOfBlock), maxRows)
 	}
 	return fmt.Sprintf("g3:%d:%s:%s:%s:%s:%d", cols, b01(f.EndOfLine), b01(f.EncodedByteAlign), b01(f.BlackIs1), b01(f.IgnoreEndOfBlock), maxRows)
 }
@@ -1301,6 +1307,12 @@ func filterFor(spec string) (pdf.Filter, *predict.Params) {
 		return pdf.FilterLZW{OffByOne: true}, nil
 	}
 	parts := strings.Split(spec, ":")
+	if len(parts) == 6 && parts[0] == "g4" {
+		cols, _ := strconv.Atoi(parts[1])
+		rows, _ := strconv.Atoi(parts[5])
+		return pdf.FilterCCITTFax{K: -1, Columns: cols, EncodedByteAlign: parts[2] == "1",
+			BlackIs1: parts[3] == "1", IgnoreEndOfBlock: parts[4] == "1", Rows: rows}, nil
+	}
 	if len(parts) == 7 && parts[0] == "g3" {
 		cols, _ := strconv.Atoi(parts[1])
 		rows, _ := strconv.Atoi(parts[6])
